@@ -9,16 +9,23 @@ from engine.verus_run import Unit
 SPEC = r"""
 use core::num::NonZeroU32;
 /// an OgreArc handle: which allocation it points to (ghost) -- the real type is decided under C14
-pub struct OgreArc { pub alloc: Ghost<int>, pub refs: Ghost<nat> }
+pub struct OgreArc { pub alloc: Ghost<int>, pub refs: Ghost<nat>,
+    /// ghost: references added by increment_references during this call / raw copies handed out during this call
+    pub granted: Ghost<nat>, pub copies: Ghost<nat> }
 impl OgreArc {
     /// `unsafe { item.increment_references(n) }`
     #[verifier::external_body]
     pub fn increment_references(&mut self, count: u32)
-        ensures final(self).refs@ == old(self).refs@ + count, final(self).alloc == old(self).alloc,
+        ensures final(self).refs@ == old(self).refs@ + count, final(self).alloc == old(self).alloc, final(self).granted@ == old(self).granted@ + count, final(self).copies == old(self).copies,
     { }
-    /// `unsafe { item.raw_copy() }`: another handle to the same allocation, the count is NOT touched
+    /// `unsafe { item.raw_copy() }`: another handle to the same allocation, the count is NOT touched.
+    /// MECHANISM obligation (C05 C14): the copy must be covered by a reference that was counted BEFORE the copy exists -- a copy handed to a
+    /// listener that is not yet counted lets that listener's drop free the payload while the producer and the other listeners still hold it
     #[verifier::external_body]
-    pub fn raw_copy(&self) -> (r: OgreArc) ensures r.alloc == self.alloc { unimplemented!() }
+    pub fn raw_copy(&mut self) -> (r: OgreArc)
+        requires old(self).copies@ < old(self).granted@,
+        ensures r.alloc == old(self).alloc, final(self).alloc == old(self).alloc, final(self).refs == old(self).refs, final(self).granted == old(self).granted, final(self).copies@ == old(self).copies@ + 1,
+    { unimplemented!() }
 }
 /// one listener's ring (AtomicMove / FullSyncMove of OgreArc; decided under C01/C02): abstractly the sequence of allocations queued
 pub struct Queue { pub seq: Ghost<Seq<int>> }
@@ -64,7 +71,7 @@ impl<const BUFFER_SIZE: usize, const MAX_STREAMS: usize> Channel<BUFFER_SIZE, MA
 
 def unit(kind, file, threshold):
     impl = r"ChannelProducer\s*<\s*'a\s*,\s*ItemType\s*,\s*OgreArc\s*<\s*ItemType\s*,\s*OgreAllocatorType\s*>\s*>\s*for\s+\w+\s*<[^{]*(?=\{)"
-    f = FnSpec(file, "send_derived", impl=impl, props=["C03", "C04"],
+    f = FnSpec(file, "send_derived", impl=impl, props=["C03", "C04", "C05", "C14"],
                sig="pub fn send_derived(&mut self, ogre_arc_item: &mut OgreArc) -> (r: bool)",
                sig_anchor=r"fn send_derived\(&self, ogre_arc_item: &OgreArc<ItemType, OgreAllocatorType>\) -> bool",
                rules=[Rule("R6-unsafe-call", r"unsafe \{ ogre_arc_item\.increment_references\(([^()]*)\) \};", r"ogre_arc_item.increment_references(\1);", count=1),
@@ -73,7 +80,7 @@ def unit(kind, file, threshold):
                       Rule("R6-queue", r"let dispatcher_manager = unsafe \{ self\.dispatcher_managers\.get_unchecked\(([^()]*)\) \};\s*match dispatcher_manager\.publish_movable\(unsafe \{ ogre_arc_item\.raw_copy\(\) \}\)\.0 \{",
                            r"match self.publish_to(\1 as u32, ogre_arc_item.raw_copy()) {", count=1, note="unchecked queue lookup + publish_movable(..).0 -> publish_to (index bound obligation)"),
                       Rule("R12-for-label", r"\bfor\s+(\w+)\s+in\s+(?!it_)", r"for \1 in it_\1: ", count=1)],
-               requires="old(self).streams_manager.inv_sm(),"
+               requires="old(self).streams_manager.inv_sm(), old(ogre_arc_item).granted@ == 0, old(ogre_arc_item).copies@ == 0,"
                         "forall|j: int| 0 <= j < MAX_STREAMS ==> old(self).dispatcher_managers[j].seq@.len() < BUFFER_SIZE",
                ensures="r, final(ogre_arc_item).alloc == old(ogre_arc_item).alloc,"
                        "final(ogre_arc_item).refs@ == old(ogre_arc_item).refs@ + old(self).streams_manager.used_streams_count@,"
@@ -86,6 +93,7 @@ def unit(kind, file, threshold):
                loops={0: "invariant old(self).streams_manager.inv_sm(), self.streams_manager.inv_sm(), it_i.iter.end == running_streams_count, it_i.iter.start <= running_streams_count, running_streams_count == old(self).streams_manager.used_streams_count@,"
                          " self.streams_manager.used_streams == old(self).streams_manager.used_streams, self.streams_manager.used_streams_count == old(self).streams_manager.used_streams_count,"
                          " ogre_arc_item.alloc == old(ogre_arc_item).alloc, ogre_arc_item.refs@ == old(ogre_arc_item).refs@ + old(self).streams_manager.used_streams_count@,"
+                         " ogre_arc_item.granted@ == old(self).streams_manager.used_streams_count@, ogre_arc_item.copies@ <= it_i.iter.start,"
                          " forall|j: int| 0 <= j < MAX_STREAMS ==> old(self).dispatcher_managers[j].seq@.len() < BUFFER_SIZE,"
                          " forall|k: int| 0 <= k < it_i.iter.start ==> self.dispatcher_managers[old(self).streams_manager.used_streams[k] as int].seq@ == old(self).dispatcher_managers[old(self).streams_manager.used_streams[k] as int].seq@.push(old(ogre_arc_item).alloc@),"
                          " forall|id: int| 0 <= id < MAX_STREAMS && (forall|k: int| 0 <= k < it_i.iter.start ==> (#[trigger] old(self).streams_manager.used_streams[k]) as int != id) ==> self.dispatcher_managers[id] == old(self).dispatcher_managers[id],"
